@@ -218,6 +218,7 @@ struct Driver {
   long tempsAlive;
   long hintMax;
   bool injectedSeen;  // an injected / allocation exception happened in this history
+  bool withinN;       // C05 ghost: no set of this history has held more than N elements so far
   std::vector<std::string> oracle;
   std::string hid;
   int step;
@@ -231,7 +232,7 @@ struct Driver {
     return r;
   }
 
-  Driver() : tempsAlive(0), hintMax(-1), injectedSeen(false), step(0) {
+  Driver() : tempsAlive(0), hintMax(-1), injectedSeen(false), withinN(true), step(0) {
     for (int k = 0; k < K; ++k) {
       alive[k] = false;
       broken[k] = false;
@@ -1358,6 +1359,18 @@ struct Driver {
             if (!node[k].empty() && valOf(node[k].value()) == kMoved) fail("C02", "node " + std::to_string(k) + " holds a moved-from element");
         }
       }
+      // C05: while no set of this history has held more than N elements, every SmallSet stays in its inline state
+      if (!isFlat) {
+        if (op == "merge_other" || threw || injectedSeen) withinN = false;  // outside the promise's quantifier (conservative)
+        for (int k = 0; k < K; ++k)
+          if (alive[k] && static_cast<long>(v(k).size()) > N) withinN = false;
+        if (withinN)
+          for (int k = 0; k < K; ++k)
+            if (alive[k] && !Cfg::small(v(k))) {
+              fail("C05", "set " + std::to_string(k) + " left the inline state although no set of this history has held more than N elements");
+              withinN = false;  // reported once
+            }
+      }
       // inline sets never allocate
       if (!isFlat && !threw && !G().allocEvents.empty()) {
         bool anyLarge = false;
@@ -1367,7 +1380,7 @@ struct Driver {
         bool request = false;
         for (size_t i = 0; i < G().allocEvents.size(); ++i)
           if (G().allocEvents[i][0] != '-') request = true;
-        if (request && !anyLarge && op != "merge_other") fail("C04", "allocator request although every set is and was inline: " + joinStr(G().allocEvents));
+        if (request && !anyLarge && op != "merge_other") fail("C05", "allocator request although every set is and was inline: " + joinStr(G().allocEvents));
       }
     }
 
